@@ -199,6 +199,18 @@ def h_ibinop(lname, rkind, n, m, op):
     return h
 
 
+def lsb0_mode(h):
+    """the same harness with options.lsb0 set: none of these operators takes a position, so the same sequence-level oracle applies"""
+    def g(K):
+        import bitstring
+        bitstring.options.lsb0 = True
+        try:
+            return h(K)
+        finally:
+            bitstring.options.lsb0 = False
+    return g
+
+
 def conditions(tier):
     q = tier == 'quick'
     conds = []
@@ -243,4 +255,16 @@ def conditions(tier):
                 if l in ('BitArray', 'BitStream'):
                     conds.append(Cond(f"C16.{'ilshift' if left else 'irshift'}[{l},n={n}]", h_shift(l, n, left, True),
                                       f'all {n}-bit contents x every Python int shift count', D_ISH, {'n': n}, timeout=T))
+    # the whole family once more with options.lsb0 set (bit-wise operators and shifts are position-free)
+    for l in (['BitArray', 'Bits'] if q else CLS):
+        for n in ([1, 9] if q else [0, 1, 8, 9, 17]):
+            for left in (True, False):
+                conds.append(Cond(f"C16.{'lshift' if left else 'rshift'}[{l},n={n},lsb0]", lsb0_mode(h_shift(l, n, left, False)), f'all {n}-bit contents x every Python int shift count; options.lsb0 set', D_SH, {'n': n}, timeout=T))
+                if l in ('BitArray', 'BitStream'):
+                    conds.append(Cond(f"C16.{'ilshift' if left else 'irshift'}[{l},n={n},lsb0]", lsb0_mode(h_shift(l, n, left, True)), f'all {n}-bit contents x every Python int shift count; options.lsb0 set', D_ISH, {'n': n}, timeout=T))
+            conds.append(Cond(f'C16.invert[{l},n={n},lsb0]', lsb0_mode(h_invert(l, n)), f'all {n}-bit contents; options.lsb0 set', D_BIN, {'n': n}, timeout=T))
+            for op in OPS:
+                conds.append(Cond(f'C16.{op}[{l},Bits,n={n},lsb0]', lsb0_mode(h_binop(l, 'Bits', n, n, op)), f'all contents of two {n}-bit operands; options.lsb0 set', D_BIN, {'n': n}, timeout=T))
+                if l in ('BitArray', 'BitStream'):
+                    conds.append(Cond(f'C16.i{op}[{l},Bits,n={n},lsb0]', lsb0_mode(h_ibinop(l, 'Bits', n, n, op)), f'all contents of two {n}-bit operands; options.lsb0 set', D_IBIN, {'n': n}, timeout=T))
     return conds
